@@ -74,6 +74,15 @@ class C11(Check):
         s07 = c07.CHECK.strategy(tier).filter(lambda s: s['id_gen']['kind'] != 'uuid').map(lambda s: {**s, 'kind': 'client-notation'})
         return st.one_of(server_plain(), server_plain(), s12, s19, s09, s07)
 
+    def corpus(self):
+        t = lambda doc: {'doc': doc, 'ascii': True, 'indent': 0, 'pad': '', 'huge': None, 'mangle': None}  # noqa: E731
+        out = []
+        for exc in dict.fromkeys(stdreg.EXC_NAMES):     # every exception type once, raised by a coroutine / plain function on the async side
+            beh = {'boom': {'kind': 'raise_exc', 'exc': exc, 'marker': 'MARKER-c11-zq'}, 'boom2': {'kind': 'raise_exc', 'exc': exc, 'marker': 'MARKER-c11-zq'}}
+            out.append({'kind': 'server', 'max_batch_size': None, 'behaviours': beh, 'middlewares': [], 'handlers': None,
+                        'text': t([{'jsonrpc': '2.0', 'id': 1, 'method': 'boom'}, {'jsonrpc': '2.0', 'id': 2, 'method': 'boom2'}, {'jsonrpc': '2.0', 'method': 'boom'}])})
+        return out
+
     def run_case(self, spec: Any) -> Outcome:
         return getattr(self, '_run_' + spec['kind'].replace('-', '_'))(spec)
 
